@@ -41,6 +41,7 @@ func main() {
 	timeoutS := flag.Int("timeout", 0, "per-obligation solver timeout in seconds (default: 10 quick, 60 thorough)")
 	fuel := flag.Int("fuel", 2, "unfolding depth of recursive spec functions")
 	known := flag.String("known", "", "known findings file")
+	forceArith := flag.String("arith", "", "force arithmetic mode (bv|int) for all functions (experiments)")
 	flag.Parse()
 
 	t0 := time.Now()
@@ -104,6 +105,13 @@ func main() {
 	}
 	var engineErrs []string
 	for _, j := range jobs {
+		if *forceArith != "" {
+			j.spec.ArithSet = true
+			j.spec.Arith = ModeBV
+			if *forceArith == "int" {
+				j.spec.Arith = ModeInt
+			}
+		}
 		if err := e.VerifyFunc(j.fn, j.spec, *prop); err != nil {
 			engineErrs = append(engineErrs, err.Error())
 			e.obligations = append(e.obligations, &Obligation{Name: e.qualName(j.fn) + "/engine", Func: e.qualName(j.fn), Kind: "engine",
@@ -177,6 +185,13 @@ func main() {
 	}
 	for _, n := range e.notes {
 		fmt.Println("note:", n)
+	}
+	if *verbose {
+		for _, ob := range e.obligations {
+			if ob.Time > 2 {
+				fmt.Printf("  slow %.1fs %s %s [%s] %s\n", ob.Time, ob.Status, ob.Name, ob.Solver, ob.Text)
+			}
+		}
 	}
 	violations := 0
 	kf := loadKnown(*known)
